@@ -270,6 +270,27 @@ def r6(cx):
             cx.violation(k, "persist-every-cycle", "a compaction cycle can end successfully without persisting the pending deletions after GC and retention scheduling", [cb.sp(p) for p in pers])
     if not found:
         cx.violation(ck, "persist-every-cycle", "run_compaction_cycle never persists the pending deletions: deletions scheduled in this cycle are forgotten by a restart", [])
+    # persist_pending_deletions writes what is queued: its Ok exits lie behind the success of a put of the serialised queue to the pending-deletions path
+    pk, pb = cx.need_body(CMP + "persist_pending_deletions")
+    if pb is not None:
+        puts = M.find_calls(pb, lambda c: c in ("object_store::ObjectStore::put", "object_store::ObjectStore::put_opts"))
+        if cx.floor("puts in persist_pending_deletions", len(puts), 1, pk):
+            se = set()
+            for x in puts:
+                se |= M.outcome_edges(pb, x)[0]
+            exits = [e for e in M.exit_defs(pb) if e[2] != "err"]
+            skipping = [e for e in exits if not (se and pb.dominated_by_edges(e[0], se))]
+            po = set()
+            for x in puts:
+                po |= M.operand_origins(pb, pb.term(x)["args"][2], at=(x, M.T), adapters=M.PURE_ADAPTERS | {"serde_json::to_vec", "serde_json::to_vec_pretty", "serde_json::to_string", "std::sync::RwLock::<T>::read", "std::sync::RwLock::<T>::write"})
+            from_queue = any(o[0] in ("upvar", "arg") and ".pending_deletions" in o[2] for o in po)
+            if skipping:
+                cx.violation(pk, "persist-writes-the-queue", "%s: persist_pending_deletions can report success without having written the queue: a cycle that believes nothing changed (or whose flag was "
+                             "cleared by an earlier failed write) leaves scheduled deletions unpersisted, and a restart forgets them" % pb.sp(skipping[0][0], skipping[0][1]), [pb.sp(skipping[0][0], skipping[0][1])])
+            elif not from_queue:
+                cx.violation(pk, "persist-writes-the-queue", "%s: what persist_pending_deletions writes is not the serialised pending_deletions queue" % pb.sp(puts[0]), [pb.sp(puts[0])])
+            else:
+                cx.passed(pk, "persist-writes-the-queue", [pb.sp(puts[0])])
     # scheduling discipline (shared with C03.R2): after the swap in compaction
     from rules.C03 import _swaps, _succ
     comp = [k for k in cx.prog.calls if k.startswith("compactor::")]
